@@ -1379,7 +1379,7 @@ def part_schema_written(env, ctx, write_log, gen_call):
                     fa = dict(p.split("=", 1) for p in real[3:].split("|")) if real.startswith("ok ") else {}
                     fw = dict(p.split("=", 1) for p in want[3:].split("|")) if want.startswith("ok ") else {}
                     diff = sorted(k2 for k2 in set(fa) | set(fw) if fa.get(k2) != fw.get(k2))
-                    ctx.disagree(f"schema:readback:{'+'.join(diff) or 'missing'}:method={calls[k]['m']}:offkind={'seconds' if off % 60 else 'minutes' if off % 3600 else 'hours'}",
+                    ctx.disagree(f"schema:readback:{'+'.join(diff) or 'missing'}",
                                  f"record logged with {calls[k]['m']}() at utcoffset {off} s is read back differently (fields {diff})",
                                  {"call": calls[k], "utcoffset": off, "attrs": {k2: (v if k2 != 'dt' else dt_toks(v)) for k2, v in a.items()}},
                                  impl=_brief_read(real), model=_brief_read(want), spec_violated=True, site="_JSONFormatter.format / PenlogRecord.parse_json")
